@@ -30,6 +30,8 @@ FRAMES = {
     'E': [('DEPTH', 'float64', None), ('VAL', 'int16', None)],
 }
 CASTS_OF = {'E': {'DEPTH': 'float32'}}
+# the index channel of configuration B carries units (the frame takes its index units from them on every write)
+UNITS_OF = {'B': {'DEPTH': 'm'}}
 SRC = ['inline', 'dict', 'struct', 'h5', 'struct-padded']     # struct-padded: unused bytes inside every row of the source
 
 
@@ -162,10 +164,14 @@ def make_spec(c, reference=False):
             pat_r = pat[frm * per: hi * per]
             arr = S.arr_spec(dt, [hi - frm] if w is None else [hi - frm, w], pat_r)
             ckw = {'cast_dtype': {'$dtype': CASTS_OF[c['frame']][name]}} if name in CASTS_OF.get(c['frame'], {}) else {}
+            if name in UNITS_OF.get(c['frame'], {}):
+                ckw['units'] = UNITS_OF[c['frame']][name]
             ops.append(S.op_add('channel', f'C{i}', name, data=arr, **ckw))
         else:
             arr = S.arr_spec(dt, [rows] if w is None else [rows, w], pat, bo=c.get('bo', '<'))
             kw = {'cast_dtype': {'$dtype': CASTS_OF[c['frame']][name]}} if name in CASTS_OF.get(c['frame'], {}) else {}
+            if name in UNITS_OF.get(c['frame'], {}):
+                kw['units'] = UNITS_OF[c['frame']][name]
             ds = name
             if c['mapping'] == 'swapped':
                 ds = {'P': 'Q', 'Q': 'P'}[name]          # channel P reads data set Q and vice versa
